@@ -2,7 +2,7 @@
 import ast
 
 from .. import terms as T
-from ..lib import (summarise, heap_writes, V, A, normal, raising, cond_str, writers_of_attr, calls_named, no_inline, nested_events, loc_attr, chain_ops, op_names,
+from ..lib import (at_construction, summarise, heap_writes, V, A, normal, raising, cond_str, writers_of_attr, calls_named, no_inline, nested_events, loc_attr, chain_ops, op_names,
                    meth_calls_in, props_only)
 from ..symex import Valuation, default_policy
 from ..terms import fmt, ZERO, num
@@ -138,8 +138,17 @@ def s4_schedule(ctx):
     qn = 'BacktestTradingSession._is_rebalance_event'
     ps = summarise(ctx, qn, policy=no_inline)
     ok = len(ps) == 1 and ps[0].outcome == 'return' and ps[0].value == ('cmp', 'in', V('dt'), A('self', 'rebalance_schedule'))
-    ctx.require(ok, 'C14.S4', 'a rebalance fires iff the event time is a member of the schedule', ctx.fn(qn).site(), [fmt(p.value) if p.value else p.outcome for p in ps],
-                key='C14.S4|membership')
+    # a test that walks the schedule with a position of its own (a cursor kept between events, a loop, a bisect) answers membership only under assumptions about
+    # the order of the schedule and of the events: not evaluated here.  A plain expression over dt and the schedule is read, and either is the membership or is not.
+    stateful = [s_ for p in ps for t_ in ([p.value] if p.value is not None else []) + [c_ for c_, _, _ in p.conds] for s_ in T.subterms(t_)
+                if s_[0] in ('lc', 'sum', 'havoc', 'accum') or (s_[0] == 'attr' and s_[1] == V('self') and s_[2] != 'rebalance_schedule')
+                or (s_[0] == 'call' and s_[1][0] == 'ext' and 'bisect' in s_[1][1])]
+    if not ok and (stateful or any(heap_writes(p) for p in ps) or any(e_.kind == 'loop' for p in ps for e_ in p.events)):
+        ctx.undecided('C14.S4', 'a rebalance fires iff the event time is a member of the schedule', ctx.fn(qn).site(),
+                      'the schedule is walked with a position kept between events: %s' % [fmt(p.value)[:100] if p.value else p.outcome for p in ps][:2])
+    else:
+        ctx.require(ok, 'C14.S4', 'a rebalance fires iff the event time is a member of the schedule', ctx.fn(qn).site(), [fmt(p.value) if p.value else p.outcome for p in ps],
+                    key='C14.S4|membership')
     ws = writers_of_attr(ctx.M, 'rebalance_schedule')
     ctx.require(len(ws) == 1 and ws[0].fn.qn == 'BacktestTradingSession.__init__', 'C14.S4', 'the schedule is written once, in the constructor', ws[0].where if ws else None,
                 [w.fn.qn for w in ws], key='C14.S4|writer')
@@ -172,7 +181,7 @@ def s4_schedule(ctx):
             else:
                 ctx.undecided('C14.S4', 'the schedule is the rebalancer\'s schedule, unfiltered [%s]' % name, w[-1].site, fmt(v)[:160] if v else None)
     ws = writers_of_attr(ctx.M, 'burn_in_dt')
-    ctx.require(all(w.fn.name == '__init__' for w in ws), 'C14.S4', 'the burn-in time is set only by the constructor', ws[0].where if ws else None, key='C14.S4|burn-in')
+    ctx.require(all(at_construction(ctx.M, w, 'burn_in_dt') for w in ws), 'C14.S4', 'the burn-in time is set only by the constructor', ws[0].where if ws else None, key='C14.S4|burn-in')
 
 
 def s5_outputs(ctx):
